@@ -163,11 +163,71 @@ async fn run_layout(run: usize, ups: &[Value], lay: &Value, ckpt_l: u64, wal_fil
         }
     }
     rec["corrupt_reads"] = json!(reads);
+    // recovery while a checkpoint is being published: after the checkpoint download the store holds the NEXT
+    // manifest (a newer checkpoint that folds in every listed segment; no segment listed any more; the old
+    // files are still there).  Both images hold the same updates: whatever recovery reads, it must return them.
+    if !cs.is_empty() {
+        let mut img1: BTreeMap<String, Vec<u8>> = BTreeMap::new();
+        if let Ok(lst) = store.list(PREFIX, None).await {
+            for o in lst.objects {
+                if let Ok(d) = store.get(&o.key).await {
+                    img1.insert(o.key.clone(), d);
+                }
+            }
+        }
+        let mut state2: HashMap<String, ReplicatedValue> = HashMap::new();
+        for i in cs.iter().chain(ids(&lay["seg1"]).iter()).chain(ids(&lay["seg2"]).iter()) {
+            let d = &by_id[i];
+            let v = match state2.get(&d.key) {
+                Some(c) => c.merge(&d.value),
+                None => d.value.clone(),
+            };
+            state2.insert(d.key.clone(), v);
+        }
+        let n2 = state2.len() as u64;
+        let data2 = CheckpointWriter::new(Compression::None).write(state2, 23456, 2).unwrap();
+        let key2 = format!("{}/checkpoints/chk-{:016}.chk", PREFIX, 23456);
+        let mut m2 = manifest.clone();
+        m2.segments.clear();
+        m2.version += 1;
+        m2.checkpoint = Some(CheckpointInfo { key: key2.clone(), timestamp_ms: 23456, key_count: n2, last_segment_id: 2 });
+        let mut img2 = img1.clone();
+        img2.insert(key2, data2);
+        let mkey = img1.keys().find(|k| k.ends_with("manifest.json")).cloned();
+        if let (Some(mkey), Ok(mj)) = (mkey, serde_json::to_vec(&m2)) {
+            img2.insert(mkey, mj);
+            let mut races = Vec::new();
+            for entry in ["recover", "recover_with_progress"] {
+                let sc = crate::stream::ScriptedObjectStore::new(false);
+                {
+                    let mut g = sc.inner.lock().unwrap();
+                    g.objs = img1.clone();
+                    g.swap_after = Some(("ckpt".into(), img2.clone()));
+                }
+                let rm2 = RecoveryManager::new(sc.clone(), PREFIX, 1);
+                let r = if entry == "recover" { rm2.recover().await } else { rm2.recover_with_progress(|_| {}).await };
+                races.push(match r {
+                    Ok(rs) => json!({"entry": entry, "ok": true, "fold": fold_state(rs.checkpoint_state, &rs.deltas)}),
+                    Err(e) => json!({"entry": entry, "ok": false, "fold": [], "err": e.to_string()}),
+                });
+            }
+            rec["ckpt_race"] = json!(races);
+        }
+    }
     match rm.recover_with_wal(&rot).await {
         Ok(rs) => {
             rec["fold_wal"] = fold_state(rs.checkpoint_state.clone(), &rs.deltas);
             rec["node"] = node_state(rs.checkpoint_state.clone(), rs.deltas.clone(), 1).await;
             rec["node2"] = node_state(rs.checkpoint_state, rs.deltas, 3).await;
+            // the server's start-up sequence: the object store first (recover), then the WAL replayed on top of it
+            if let Ok(obj) = rm.recover().await {
+                let node = ReplicatedShardedState::new(ReplicationConfig { replica_id: 9, ..Default::default() });
+                node.apply_recovered_state(obj.checkpoint_state.clone(), obj.deltas.clone());
+                let wal: Vec<ReplicationDelta> = rot.recover_all_entries().map(|es| es.iter().filter_map(|e| e.to_delta().ok()).collect()).unwrap_or_default();
+                node.apply_recovered_state(None, wal);
+                let snap: BTreeMap<String, ReplicatedValue> = node.snapshot_state().await.into_iter().collect();
+                rec["node_staged"] = json!(snap.iter().map(|(k, v)| json!([k, crate::crdt::obs(v)])).collect::<Vec<_>>());
+            }
         }
         Err(e) => rec["err"] = json!(format!("recover_with_wal: {e}")),
     }
